@@ -298,7 +298,7 @@ def run(ctx, report: Report) -> None:
     tx = TableExtractor(ctx, mod, fn)
 
     # ---- R1: locate the structure -------------------------------------------------------------------------
-    r1 = report.rule('C10-R1', 'escape() decision table extracted symbolically', floor=10)
+    r1 = report.rule('C10-R1', 'escape() decision table extracted symbolically', floor=6)
     def symbolic():
         loop = None
         for n in walk_no_nested(fn):
@@ -497,7 +497,7 @@ def run(ctx, report: Report) -> None:
                          f'escape() returns {w2!r} unchanged although it contains a backslash, which decodes differently')
 
     # ---- R3: decode(encode(c)) == c ----------------------------------------------------------------------------
-    r3 = report.rule('C10-R3', 'decoding inverts encoding, class by class', floor=13)
+    r3 = report.rule('C10-R3', 'decoding inverts encoding, class by class', floor=6)
     # decoder tables
     esc = inv.by_name('css_parser.RE_CSS_ESC')
     s = rx.System()
@@ -576,7 +576,7 @@ def run(ctx, report: Report) -> None:
                              f'escape(): for {where} the output {tpl} does not decode back to the character: {why}')
 
     # ---- R4: no partial operation ------------------------------------------------------------------------------
-    r4 = report.rule('C10-R4', 'escape() contains no partial operation', floor=4)
+    r4 = report.rule('C10-R4', 'escape() contains no partial operation', floor=2)
     allowed = {'len', 'enumerate', 'ord', 'join', 'append', 'match', 'fullmatch', 'startswith', 'endswith'} | STR_PREDICATES
     todo, seen_f = [('escape', fn)], set()
     while todo:
@@ -619,12 +619,12 @@ def run(ctx, report: Report) -> None:
                      f'escape("") gives {empty!r} instead of "": a subscript or comparison is not guarded by a length test')
 
     # ---- R5: pattern text reaches the tokenizer unmodified -----------------------------------------------------
-    r5 = report.rule('C10-R5', 'pattern text travels from compile() to the tokenizer unmodified', floor=3)
+    r5 = report.rule('C10-R5', 'pattern text travels from compile() to the tokenizer unmodified', floor=2)
     from .sem import pattern_handover_table
     pattern_handover_table(ctx, r5)
 
     # ---- R6 ----------------------------------------------------------------------------------------------------
-    r6 = report.rule('C10-R6', 'an escaped identifier reaches the IR through one decode and position-based unquoting only', floor=38)
+    r6 = report.rule('C10-R6', 'an escaped identifier reaches the IR through one decode and position-based unquoting only', floor=19)
     from .c09 import decode_pipeline_rule
     decode_pipeline_rule(ctx, r6, r6)
     # only the decode / unquoting findings belong to this property (the case-folding findings are C09/C11 material)
